@@ -5,6 +5,8 @@ import (
 
 	"github.com/aws/aws-sdk-go-v2/aws"
 	"github.com/aws/aws-sdk-go-v2/service/dynamodb"
+	ddbtypes "github.com/aws/aws-sdk-go-v2/service/dynamodb/types"
+	v2 "github.com/truora/minidyn/aws-v2/client"
 )
 
 // C13.R4: an update expression could change a key attribute, leaving an item whose key differs from its address.
@@ -26,5 +28,31 @@ func TestC13KeyEncodingCollides(t *testing.T) {
 	put(t, c, "t", item{"h": S("a"), "r": S("b.c"), "v": S("second")})
 	if got := scanIndex(t, c, "t", ""); len(got) != 2 {
 		t.Fatalf("two distinct keys collapsed into %d item(s)", len(got))
+	}
+}
+
+// C13.R7: the declared type of the primary key does not change when an index is added on the same attribute
+// (the AddIndex helper always declares its key attributes as S).
+func TestC13AddIndexKeepsThePrimaryKeyType(t *testing.T) {
+	c := v2.NewClient()
+	_, err := c.CreateTable(ctx, &dynamodb.CreateTableInput{
+		TableName:            aws.String("t"),
+		BillingMode:          ddbtypes.BillingModePayPerRequest,
+		AttributeDefinitions: []ddbtypes.AttributeDefinition{{AttributeName: aws.String("id"), AttributeType: ddbtypes.ScalarAttributeTypeN}},
+		KeySchema:            []ddbtypes.KeySchemaElement{{AttributeName: aws.String("id"), KeyType: ddbtypes.KeyTypeHash}},
+	})
+	if err != nil {
+		t.Fatal(err)
+	}
+	put(t, c, "t", item{"id": N("1"), "g": S("x")})
+	if err := v2.AddIndex(ctx, c, "t", "by-id", "id", ""); err != nil {
+		t.Fatal(err)
+	}
+	if _, err := c.PutItem(ctx, &dynamodb.PutItemInput{TableName: aws.String("t"), Item: item{"id": N("2"), "g": S("y")}}); err != nil {
+		t.Fatalf("a well-typed key is rejected after AddIndex: %v", err)
+	}
+	out, err := c.GetItem(ctx, &dynamodb.GetItemInput{TableName: aws.String("t"), Key: item{"id": N("1")}})
+	if err != nil || len(out.Item) == 0 {
+		t.Fatalf("item 1 is no longer retrievable under its key: %v %v", out, err)
 	}
 }
